@@ -37,7 +37,12 @@ class SpecView:
             return any(self.has_hook(b, hook) for b in L.get('b') or ())
         return False
 
+    test_layer = None     # optional {tid: layer short name or None} override
+
     def test_closure(self, tid):
+        if self.test_layer is not None:
+            lay = self.test_layer[tid]
+            return frozenset() if lay is None else self.closure[lay]
         t = self.tests[tid]
         lay = t.get('l')
         if t.get('li') and t['li'].get('l'):
